@@ -362,3 +362,173 @@ Definition predict_row (D : nat) (t : sample) (c d1 d2 : Z) : Qc :=
   intercept + interaction1 + interaction2.
 Definition predict_training (g : cfg) (d : data) (t : sample) : list Qc :=
   tab (nobs d) (fun i => predict_row (c_D g) t (znth (d_cl d) i) (znth (d_dd1 d) i) (znth (d_dd2 d) i)).
+
+(* ---------------------------------------------------------------- vocabulary of the source translation
+   (Generated/SrcGibbs.v, configurations C08_* of harness/src_functions.py).  Each definition below is the meaning of ONE
+   attribute / numpy / library call of the translated methods of LegacySparseDrugComboImpl; which call is applied to
+   what, in which order, under which test and in which loop is read from the source on every run.
+
+   The object: `self` is split as the model splits it - the options and sizes [g : cfg], the observations [d : data]
+   (self.y, self.cline, self.dd1, self.dd2 and the three index dicts derived from them by _update) and the sampler
+   state [st] (cfg["fields"]: self.W ... self.Mu are the fields of the record, a store rebinds the record).
+   Arrays: a float array of shape (n,) is [list Qc], of shape (n, D) the list of its rows, an integer array of
+   observation numbers [list nat], an id array [list Z].  numpy's IndexError / shape errors are not represented (as in
+   the header of this file): a read outside an array gives 0 / [], a store outside it does nothing; the linking
+   theorems carry the shape facts they need as hypotheses.
+
+   Random draws: the translated methods denote programs in the free monad [gprog] over the model's [draw] / [val]
+   (exactly the model's [prog], with a result type): `x = np.random.normal(m, s)` is the node [GDraw (DNormal m (s^2))]
+   whose continuation goes on with the drawn value.  [to_prog] reads such a program of states as a model program. *)
+Definition qnum := Qc.
+(* Python / numpy float arithmetic as exact rational arithmetic (named: the generated file does not open Qc_scope) *)
+Definition q0 : Qc := 0.
+Definition q1 : Qc := 1.
+Definition qadd (a b : Qc) : Qc := a + b.
+Definition qsub (a b : Qc) : Qc := a - b.
+Definition qmul (a b : Qc) : Qc := a * b.
+Definition qdiv (a b : Qc) : Qc := a / b.
+Inductive gprog (T : Type) : Type := GRet (x : T) | GDraw (dr : draw) (k : val -> gprog T).
+Arguments GRet {T} x.
+Arguments GDraw {T} dr k.
+Fixpoint gbind {A B : Type} (p : gprog A) (f : A -> gprog B) : gprog B :=
+  match p with GRet x => f x | GDraw dr k => GDraw dr (fun v => gbind (k v) f) end.
+Notation "'dop' x <- e ; k" := (gbind e (fun x => k))
+  (at level 200, x pattern, e at level 100, k at level 200, right associativity).
+(* a for loop whose body may draw: the state is threaded left to right *)
+Fixpoint prog_fold {S A : Type} (f : S -> A -> gprog S) (l : list A) (s : S) : gprog S :=
+  match l with
+  | [] => GRet s
+  | a :: r => dop s' <- f s a; prog_fold f r s'
+  end.
+Fixpoint to_prog (p : gprog st) : prog :=
+  match p with GRet s => Ret s | GDraw dr k => Draw dr (fun v => to_prog (k v)) end.
+Fixpoint of_prog (p : prog) : gprog st :=
+  match p with Ret s => GRet s | Draw dr k => GDraw dr (fun v => of_prog (k v)) end.
+(* equality of programs up to the extensionality of their continuations (Coq's equality of functions is intensional;
+   no axiom is used): the same draw arguments, and equal programs for every drawn value *)
+Inductive prog_eq : prog -> prog -> Prop :=
+| PE_ret : forall s, prog_eq (Ret s) (Ret s)
+| PE_draw : forall dr k1 k2, (forall v, prog_eq (k1 v) (k2 v)) -> prog_eq (Draw dr k1) (Draw dr k2).
+Inductive geq {T : Type} : gprog T -> gprog T -> Prop :=
+| GE_ret : forall x, geq (GRet x) (GRet x)
+| GE_draw : forall dr k1 k2, (forall v, geq (k1 v) (k2 v)) -> geq (GDraw dr k1) (GDraw dr k2).
+
+(* np.sqrt(x) and 1.0 / np.sqrt(x), kept symbolic: the model never takes a square root of a variance (a normal draw
+   with standard deviation 1/sqrt(p) has variance 1/p exactly); where the VALUE of 1/sqrt(x) is used (the clipping
+   bound) it is the oracle's, as in [clip_lo] *)
+Inductive ssqrt := Sqrt (x : Qc).
+Inductive isqrt := InvSqrt (x : Qc).
+Definition inv_sqrt (r : ssqrt) : isqrt := match r with Sqrt x => InvSqrt x end.
+Definition isq_sq (r : isqrt) : Qc := match r with InvSqrt x => / x end.                        (* (1/sqrt x)^2 *)
+Definition isq_value (orc : oracle) (r : isqrt) : Qc := match r with InvSqrt x => / orc ORC_SQRT x end.
+
+(* np.random.normal(m, s), np.random.normal(0.0, s) with an array s, np.random.gamma(a, scale): scale = 1 / rate *)
+Definition draw_normal (m : Qc) (s : isqrt) : gprog Qc := GDraw (DNormal m (isq_sq s)) (fun v => GRet (val_q v)).
+Definition draw_normal_vec (s : list isqrt) : gprog (list Qc) := GDraw (DNormalVec (map isq_sq s)) (fun v => GRet (val_v v)).
+Definition draw_gamma (a scale : Qc) : gprog Qc := GDraw (DGamma a (/ scale)) (fun v => GRet (val_q v)).
+(* ... with an array of scales: the drawn array has the shape of the scale argument (numpy's contract; a recorded answer
+   of another shape is read at that shape, as the model reads it) *)
+Definition fit_like {A B} (z : B) (like : list A) (l : list B) : list B := map (fun i => nth i l z) (seq 0 (length like)).
+Definition fit_like2 (like m : list (list Qc)) : list (list Qc) :=
+  map (fun p => fit_like 0 (fst p) (snd p)) (combine like (fit_like [] like m)).
+Definition draw_gamma_vec (a : Qc) (scales : list Qc) : gprog (list Qc) :=
+  GDraw (DGammaVec a (map Qcinv scales)) (fun v => GRet (fit_like 0 scales (val_v v))).
+Definition draw_gamma_mat (a : Qc) (scales : list (list Qc)) : gprog (list (list Qc)) :=
+  GDraw (DGammaMat a (map (map Qcinv) scales)) (fun v => GRet (fit_like2 scales (val_m v))).
+
+(* a[i] with a Python int i (negative counts from the end); a[i] = v *)
+Definition np_get {A} (z : A) (a : list A) (i : Z) : A := nth (pyidx (length a) i) a z.
+Definition np_store {A} (a : list A) (i : Z) (v : A) : list A := set_nth (pyidx (length a) i) v a.
+(* a[idx] with an array of observation numbers / of Python ints: one entry per index, in order *)
+Definition np_gather {A} (z : A) (a : list A) (idx : list nat) : list A := map (fun i => nth i a z) idx.
+Definition np_take {A} (z : A) (a : list A) (ix : list Z) : list A := map (np_get z a) ix.
+(* elementwise operators on arrays of equal shape, array op scalar *)
+Fixpoint zipw {A B C} (f : A -> B -> C) (a : list A) (b : list B) : list C :=
+  match a, b with x :: a', y :: b' => f x y :: zipw f a' b' | _, _ => [] end.
+Definition np_vsub : list Qc -> list Qc -> list Qc := zipw Qcminus.
+Definition np_vadd : list Qc -> list Qc -> list Qc := zipw Qcplus.
+Definition np_vmul : list Qc -> list Qc -> list Qc := zipw Qcmult.
+Definition np_vadds (a : list Qc) (x : Qc) : list Qc := map (fun y => y + x) a.
+Definition np_vmuls (a : list Qc) (x : Qc) : list Qc := map (fun y => y * x) a.
+Definition np_square : list Qc -> list Qc := map qsq.
+(* a[idx] += x (a scalar, broadcast) / a[idx] += delta (an array): gather, add, assign in order *)
+Definition np_iadd_at_scalar (a : list Qc) (idx : list nat) (x : Qc) : list Qc := scatter_add a idx (map (fun _ => x) idx).
+Definition np_iadd_at (a : list Qc) (idx : list nat) (delta : list Qc) : list Qc := scatter_add a idx delta.
+(* np.where(mask)[0]: the positions where the mask holds, ascending *)
+Definition np_where (m : list bool) : list nat := filter (fun i => nth i m false) (seq 0 (length m)).
+(* a[positions] = 0.0: every listed entry (row) becomes zero ([z] = the zero of an entry's shape) *)
+Definition np_zero_at {A} (z : A) (a : list A) (pos : list nat) : list A := fold_left (fun a i => set_nth i z a) pos a.
+(* np.clip(x, C, hi) with C = 1.0 / np.sqrt(..) *)
+Definition np_clip_isq (orc : oracle) (x : Qc) (lo : isqrt) (hi : Qc) : Qc := qclip (isq_value orc lo) hi x.
+(* scalar op array, elementwise on arrays of standard deviations / clipping bounds, range *)
+Definition np_sadd (x : Qc) : list Qc -> list Qc := map (fun y => x + y).
+Definition np_smul (x : Qc) : list Qc -> list Qc := map (fun y => x * y).
+Definition np_sdiv (x : Qc) : list Qc -> list Qc := map (fun y => x / y).
+Definition np_vdivs (a : list Qc) (x : Qc) : list Qc := map (fun y => y / x) a.
+Definition np_clip_isq_each (orc : oracle) (a : list Qc) (lo : list isqrt) (hi : Qc) : list Qc :=
+  zipw (fun x l => np_clip_isq orc x l hi) a lo.
+Definition np_clip_isq_all (orc : oracle) (a : list Qc) (lo : isqrt) (hi : Qc) : list Qc :=
+  map (fun x => np_clip_isq orc x lo hi) a.
+(* np.clip(a, C[:, None], hi): row m of the matrix is clipped below by C[m] *)
+Definition np_clip_isq_rows (orc : oracle) (a : list (list Qc)) (lo : list isqrt) (hi : Qc) : list (list Qc) :=
+  zipw (fun row l => np_clip_isq_all orc row l hi) a lo.
+(* a.sum(0) of a matrix with D columns (the list of rows does not know D when there is no row) *)
+Definition np_colsum (D : nat) (a : list (list Qc)) : list Qc := tab D (fun k => qsum (map (fun r => vnth r k) a)).
+Definition zrange2 (a b : Z) : list Z := map (fun i => (a + Z.of_nat i)%Z) (seq 0 (Z.to_nat (b - a))).
+(* a[i:] (a slice from a Python index to the end), total sum of a matrix *)
+Definition np_from {A} (a : list A) (i : Z) : list A := skipn (pyidx (length a) i) a.
+Definition np_msum (a : list (list Qc)) : Qc := qsum (map qsum a).
+(* sample_mvn_from_precision(Q, mu_part=b): the answer says whether the call raised (VFail) - the block's try/except *)
+Definition draw_mvn (Q : list (list Qc)) (b : list Qc) : gprog val := GDraw (DMvn Q b) (fun v => GRet v).
+(* matrix products of the vector blocks; a matrix is the list of its rows and has D columns (explicit: the list does not
+   know D when there is no row): X @ v, X.transpose(), A @ B, matrix * scalar, Q[np.diag_indices(D)] += v *)
+Definition np_matvec (X : list (list Qc)) (v : list Qc) : list Qc := map (fun r => qsum (zipw Qcmult r v)) X.
+Definition np_transpose (D : nat) (X : list (list Qc)) : list (list Qc) := tab D (fun j => map (fun r => vnth r j) X).
+Definition np_matmul (D : nat) (A B : list (list Qc)) : list (list Qc) :=
+  map (fun a => tab D (fun k => qsum (zipw Qcmult a (map (fun r => vnth r k) B)))) A.
+Definition np_mmuls (A : list (list Qc)) (x : Qc) : list (list Qc) := map (fun r => np_vmuls r x) A.
+Definition np_add_diag (Q : list (list Qc)) (v : list Qc) : list (list Qc) :=
+  tab (length Q) (fun j => tab (length (rnth Q j)) (fun k => vnth (rnth Q j) k + (if Nat.eqb j k then vnth v j else 0))).
+(* np.diag_indices(n), and Q[dix] += v: v[j] is added to Q[j][j] for j < n *)
+Inductive diag_indices := DiagIndices (n : Z).
+Definition np_add_diag_at (ix : diag_indices) (Q : list (list Qc)) (v : list Qc) : list (list Qc) :=
+  match ix with DiagIndices n =>
+    tab (length Q) (fun j => tab (length (rnth Q j)) (fun k =>
+      vnth (rnth Q j) k + (if Nat.eqb j k && (Z.of_nat j <? n)%Z then vnth v j else 0)))
+  end.
+(* the sweep for an arbitrary behaviour [step] of the block methods ([run_blocks g d orc] is [run_blocks_with (step_prog g d orc)]) *)
+Definition run_blocks_with (step : blk -> st -> prog) (bs : list blk) (s : st) : prog :=
+  fold_left (fun p b => bind p (step b)) bs (Ret s).
+(* hypothesis of the linking theorems: a parameter matrix has n rows of D entries (what __init__ allocates) *)
+Definition shape2 (M : list (list Qc)) (n D : nat) : Prop :=
+  length M = n /\ forall i, (i < n)%nat -> length (rnth M i) = D.
+
+(* ---- the observation store of the object, for the links of _update / encode_obs: the four Python lists and the three
+   defaultdict(list) index dicts (insertion-ordered association lists; a missing key reads as the empty list) *)
+Record pyobs := { o_y : list Qc; o_cl : list Z; o_dd1 : list Z; o_dd2 : list Z;
+                  o_cidx : list (Z * list nat); o_1idx : list (Z * list nat); o_2idx : list (Z * list nat) }.
+Definition set_o_y o x := {| o_y := x; o_cl := o_cl o; o_dd1 := o_dd1 o; o_dd2 := o_dd2 o; o_cidx := o_cidx o; o_1idx := o_1idx o; o_2idx := o_2idx o |}.
+Definition set_o_cl o x := {| o_y := o_y o; o_cl := x; o_dd1 := o_dd1 o; o_dd2 := o_dd2 o; o_cidx := o_cidx o; o_1idx := o_1idx o; o_2idx := o_2idx o |}.
+Definition set_o_dd1 o x := {| o_y := o_y o; o_cl := o_cl o; o_dd1 := x; o_dd2 := o_dd2 o; o_cidx := o_cidx o; o_1idx := o_1idx o; o_2idx := o_2idx o |}.
+Definition set_o_dd2 o x := {| o_y := o_y o; o_cl := o_cl o; o_dd1 := o_dd1 o; o_dd2 := x; o_cidx := o_cidx o; o_1idx := o_1idx o; o_2idx := o_2idx o |}.
+Definition set_o_cidx o x := {| o_y := o_y o; o_cl := o_cl o; o_dd1 := o_dd1 o; o_dd2 := o_dd2 o; o_cidx := x; o_1idx := o_1idx o; o_2idx := o_2idx o |}.
+Definition set_o_1idx o x := {| o_y := o_y o; o_cl := o_cl o; o_dd1 := o_dd1 o; o_dd2 := o_dd2 o; o_cidx := o_cidx o; o_1idx := x; o_2idx := o_2idx o |}.
+Definition set_o_2idx o x := {| o_y := o_y o; o_cl := o_cl o; o_dd1 := o_dd1 o; o_dd2 := o_dd2 o; o_cidx := o_cidx o; o_1idx := o_1idx o; o_2idx := x |}.
+(* dct[k] on a defaultdict(list) (read), dct[k].append(n) *)
+Fixpoint dl_get (dct : list (Z * list nat)) (k : Z) : list nat :=
+  match dct with [] => [] | (k', l) :: r => if (k' =? k)%Z then l else dl_get r k end.
+Fixpoint dl_append (dct : list (Z * list nat)) (k : Z) (n : nat) : list (Z * list nat) :=
+  match dct with
+  | [] => [(k, [n])]
+  | (k', l) :: r => if (k' =? k)%Z then (k', l ++ [n]) :: r else (k', l) :: dl_append r k n
+  end.
+(* the object's observation store represents the model's data: the lists agree and every index dict lists, for every key,
+   the observation numbers with that key in insertion order - what the block methods' index primitive reads *)
+Definition obs_rep (o : pyobs) (d : data) : Prop :=
+  o_y o = d_y d /\ o_cl o = d_cl d /\ o_dd1 o = d_dd1 d /\ o_dd2 o = d_dd2 d /\
+  (forall k, dl_get (o_cidx o) k = positions k (d_cl d)) /\
+  (forall k, dl_get (o_1idx o) k = positions k (d_dd1 d)) /\ (forall k, dl_get (o_2idx o) k = positions k (d_dd2 d)).
+Definition data_snoc (d : data) (y : Qc) (cl dd1 dd2 : Z) : data :=
+  {| d_y := d_y d ++ [y]; d_cl := d_cl d ++ [cl]; d_dd1 := d_dd1 d ++ [dd1]; d_dd2 := d_dd2 d ++ [dd2] |}.
+Definition obs_empty : pyobs := {| o_y := []; o_cl := []; o_dd1 := []; o_dd2 := []; o_cidx := []; o_1idx := []; o_2idx := [] |}.
+Definition data_empty : data := {| d_y := []; d_cl := []; d_dd1 := []; d_dd2 := [] |}.
